@@ -22,6 +22,7 @@
         open spec fn self_delimiting() -> bool { false }
         open spec fn dec_rel(b: Seq<u8>, v: &u8, k: int) -> bool { true }
         open spec fn dec_total() -> bool { false }
+        open spec fn dec_stop(rest: Seq<u8>) -> bool { true }
         open spec fn functional() -> bool { true }
         proof fn law_dec_bounds(b: Seq<u8>) {}
         proof fn law_dec_frame(b: Seq<u8>, s: Seq<u8>) {}
@@ -57,6 +58,7 @@
         open spec fn self_delimiting() -> bool { false }
         open spec fn dec_rel(b: Seq<u8>, v: &u16, k: int) -> bool { true }
         open spec fn dec_total() -> bool { false }
+        open spec fn dec_stop(rest: Seq<u8>) -> bool { true }
         open spec fn functional() -> bool { true }
         proof fn law_dec_bounds(b: Seq<u8>) {}
         proof fn law_dec_frame(b: Seq<u8>, s: Seq<u8>) {}
@@ -92,6 +94,7 @@
         open spec fn self_delimiting() -> bool { false }
         open spec fn dec_rel(b: Seq<u8>, v: &u32, k: int) -> bool { true }
         open spec fn dec_total() -> bool { false }
+        open spec fn dec_stop(rest: Seq<u8>) -> bool { true }
         open spec fn functional() -> bool { true }
         proof fn law_dec_bounds(b: Seq<u8>) {}
         proof fn law_dec_frame(b: Seq<u8>, s: Seq<u8>) {}
@@ -127,6 +130,7 @@
         open spec fn self_delimiting() -> bool { false }
         open spec fn dec_rel(b: Seq<u8>, v: &u64, k: int) -> bool { true }
         open spec fn dec_total() -> bool { false }
+        open spec fn dec_stop(rest: Seq<u8>) -> bool { true }
         open spec fn functional() -> bool { true }
         proof fn law_dec_bounds(b: Seq<u8>) {}
         proof fn law_dec_frame(b: Seq<u8>, s: Seq<u8>) {}
@@ -162,6 +166,7 @@
         open spec fn self_delimiting() -> bool { false }
         open spec fn dec_rel(b: Seq<u8>, v: &usize, k: int) -> bool { true }
         open spec fn dec_total() -> bool { false }
+        open spec fn dec_stop(rest: Seq<u8>) -> bool { true }
         open spec fn functional() -> bool { true }
         proof fn law_dec_bounds(b: Seq<u8>) {}
         proof fn law_dec_frame(b: Seq<u8>, s: Seq<u8>) {}
